@@ -391,6 +391,16 @@ def c17(run):
 def c19(run):
     run.build()
     run.mc("MC_CoinSet", "MC_CoinSet.cfg")
+    if run.tier == "thorough":
+        # "totals never drift" as an inductive invariant over unbounded integers (Apalache); the variant whose Shift
+        # subtracts the wrong element is the negative control
+        run.apalache("CoinSetCache", "Init", "IndInv", 0)
+        run.apalache("CoinSetCache", "IndInit", "IndInv", 1)
+        src = open(os.path.join(run.dir, "CoinSetCache.tla")).read()
+        with open(os.path.join(run.dir, "CoinSetCacheDrift.tla"), "w") as f:
+            f.write(src.replace("MODULE CoinSetCache", "MODULE CoinSetCacheDrift").replace("tv' = tv - Head(coins).value", "tv' = tv - coins[Len(coins)].value"))
+        if run.apalache("CoinSetCacheDrift", "IndInit", "IndInv", 1, expect_fail=True):
+            raise pipeline.Infra("negative control failed: a Shift that subtracts the last coin's value should break the inductive invariant")
     cases = run.gen("MC_CoinSet", "Gen_CoinSet.cfg", env={"GEN_DEPTH": "6" if run.tier == "thorough" else "5"})
     trace, _ = run.exec("C19", cases=cases)
     run.validate("Trace_CoinSet", trace)
